@@ -461,7 +461,10 @@ fn min_max_helper<T, A: ArrayAccessor<Item = T>, F>(array: A, cmp: F) -> Option<
 where
     F: Fn(&T, &T) -> bool,
 {
-    let null_count = array.null_count();
+    // A dictionary array can hold its nulls in the dictionary values rather
+    // than in the keys, so the logical nulls decide which rows take part
+    let nulls = array.logical_nulls();
+    let null_count = nulls.as_ref().map(|n| n.null_count()).unwrap_or_default();
     if null_count == array.len() {
         None
     } else if null_count == 0 {
@@ -472,7 +475,7 @@ where
             .map(|i| unsafe { array.value_unchecked(i) })
             .reduce(|acc, item| if cmp(&acc, &item) { item } else { acc })
     } else {
-        let nulls = array.nulls().unwrap();
+        let nulls = nulls.unwrap();
         unsafe {
             let idx = nulls.valid_indices().reduce(|acc_idx, idx| {
                 let acc = array.value_unchecked(acc_idx);
@@ -576,7 +579,8 @@ pub fn sum_array<T: ArrowNumericType, A: ArrayAccessor<Item = T::Native>>(
 ) -> Option<T::Native> {
     match array.data_type() {
         DataType::Dictionary(_, _) => {
-            let null_count = array.null_count();
+            // nulls may live in the dictionary values rather than in the keys
+            let null_count = array.logical_null_count();
 
             if null_count == array.len() {
                 return None;
@@ -616,7 +620,8 @@ pub fn sum_array_checked<T: ArrowNumericType, A: ArrayAccessor<Item = T::Native>
 ) -> Result<Option<T::Native>, ArrowError> {
     match array.data_type() {
         DataType::Dictionary(_, _) => {
-            let null_count = array.null_count();
+            // nulls may live in the dictionary values rather than in the keys
+            let null_count = array.logical_null_count();
 
             if null_count == array.len() {
                 return Ok(None);
